@@ -11,7 +11,8 @@ CLAIM = {
           'affine map through the base unit), dimension_checked, convert_ok_iff (a number exactly when the dimensions agree), '
           'unknown_unit_refused, category_mismatch_refused, lis_convert_ok_iff, lis_refusal_is_units_error, convertArray_eq_map, '
           'convertArrayInplace_eq_map (both with the refusal), array_elementwise, array_dimension_checked, convertArrayInplace_eq_convertArray (every number type), unknown_unit_to_itself_refused, EngVal entry points and history '
-          'independence of one EngVal object (engval_history, engval_history_determined, engval_imul_then_get). '
+          'independence of one EngVal object (engval_history, engval_history_determined, engval_imul_then_get), '
+          'convertArray_results_independent. '
           'PARTIAL: "to within floating-point rounding" is not a theorem (IEEE rounding of Float is opaque to the Lean kernel); it is '
           'exercised on every run - every ordered pair of every dimension/category at several magnitudes, round trips, triples, array '
           'forms - against exact fractions.Fraction results with a running error bound derived on paper (stated in the evidence).'),
@@ -33,7 +34,11 @@ RULE = ('OSDD: every ordered pair of units of one dimension (102 825 pairs incl.
         '2-D/3-D, Fortran order, 0-length, 0-d): caller\'s array afterwards = element-wise scalar conversion, base outside the view untouched. '
         'EngVal HISTORY: 250 (quick) / 2500 random histories of 12-40 operations on ONE object (getInUnits, comparisons, + - * /, in-place '
         '+= -= *= /= with reals and EngVals, convert, newEngValInUnits, .value= / .uom= assignment); after every step every observable is '
-        'compared with a Fraction reference recomputed from (value, uom) and with a fresh object. A case is non-trivial when the '
+        'compared with a Fraction reference recomputed from (value, uom) and with a fresh object. HOLD: 1200 (quick) / 12000 sequences of 2-6 '
+        'convert_array calls (+ convert_function, interleaved in-place calls) on arrays of one shape/dtype with mixed units, all results kept: '
+        'afterwards each equals the scalar reference of its own input, no two results (or result and input) share memory or identity, writing '
+        'into one changes nothing else; 1500 / 15000 sequences of EngVal-returning operations (newEngValInUnits, + - * /, reflected forms) with '
+        'the results kept, mutated one by one, the source mutated in between. A case is non-trivial when the '
         'two (three) units differ and the value is non-zero, or when it is a refusal; distinct by the unit codes involved.')
 ASSUMPTIONS = ['binary64 arithmetic of CPython/numpy follows IEEE 754 round-to-nearest (the rounding bound is derived from that)',
                'float64 numpy arrays of any shape / strides / memory order (the in-place form cannot hold the result in an integer array; float32 rounds the table constants too)',
@@ -601,6 +606,8 @@ def run_osdd(ctx, boost=False):
 
     # ---- array forms on strided / non-contiguous / multi-dimensional / empty arrays
     run_layouts(ctx, U, np, ous, dims, lean, boost)
+    # ---- results held while further conversions are made
+    run_hold_arrays(ctx, U, np, ous, dims, lean, boost)
 
     # ---- refusal: different dimensions
     refuse = []
@@ -952,6 +959,7 @@ def run_lis(ctx, boost=False):
         for op, out in outs.items():
             lines.append(f'{op} {bhex(u1)} {bhex(u2)} {fbits(v)}'); meta.append(('engval_' + op, case, out, (lambda bad=bad: bad)))
     run_history(ctx, L, EV, lus, lean, boost)
+    run_hold_engval(ctx, L, EV, lus, boost)
     rep = lean(lines)
     for item, m in zip(meta, rep):
         if len(item) == 4:
@@ -1090,6 +1098,12 @@ def replay(ctx, rec):
             if kind != 'ok': return False, f'convert_function raised {f}'
             ok = canon(*osdd_call(U, f, v)) == canon(*osdd_call(U, U.convert, v, a.unit, b.unit))
             return ok, 'convert_function(a,b)(v) vs convert(v,a,b)'
+        if op == 'osdd_hold':
+            keys = [k for st in case['seq'] for k in (st['from'], st['to'])]
+            if any(k not in by for k in keys):
+                return True, 'unit(s) no longer all in the table'
+            bad = play_hold_arrays(U, np, by, case)[0]
+            return bad is None, bad or 'every held result still equals the conversion of its own input; no shared memory'
         if op == 'osdd_layout':
             a, b = g('from'), g('to')
             pool = [fx(h) for h in case['pool']]
@@ -1115,6 +1129,9 @@ def replay(ctx, rec):
             res = osdd_call(L, L.convert, 1.0, dec(case['from']), dec(case['to']))
             return res[0] == 'units', f'convert -> {res[0]} {res[1]!r}'
         un = lambda h: b'' if h == '-' else bytes.fromhex(h)
+        if op == 'engval_hold':
+            bad = play_hold_engval(L, EV, LisRef(lus), case['start'], case['ops'])
+            return bad is None, bad or 'every held EngVal result keeps its value/units; all results are distinct objects'
         if op == 'engval_history':
             pr = case['probes']
             probes = {'units': [bytes.fromhex(h) for h in pr['units']], 'cmp': (fx(pr['cmp'][0]), bytes.fromhex(pr['cmp'][1]))}
@@ -1565,3 +1582,261 @@ def run_history(ctx, L, EV, lus, lean, boost=False):
         else:
             ctx.corr('engval_history_step', case, impl, m)
     ctx.extra['engval_histories'] = nh
+
+
+# ------------------------------------------------------------------ HOLD streams: results kept while further calls are made
+
+def _build_array(np, pool, li, idx):
+    desc, shape, order, vf = _layouts()[li]
+    parr = np.array(pool, dtype=np.float64)
+    base = parr[idx] if idx.size else np.zeros(idx.shape, dtype=np.float64)
+    base = np.asfortranarray(base) if order == 'F' else np.ascontiguousarray(base)
+    if base.shape != idx.shape:
+        base = base.reshape(idx.shape)
+    return base, vf(base), vf(idx).reshape(-1)
+
+
+def play_hold_arrays(U, np, by, case):
+    """k conversions in sequence on arrays of one shape / dtype (mixed units, some on the same input), every result kept.
+    Afterwards: every result still equals the element-wise scalar conversion of ITS input (exact value, rounding bound); results
+    are distinct arrays sharing no memory with each other or with any input; inputs unchanged; writing into one result changes
+    nothing else. The callables of convert_function are held the same way. Returns (failure text or None, [(request, canonical result)])."""
+    pool = [float.fromhex(h) for h in case['pool']]
+    li = case['layout']
+    shape = tuple(_layouts()[li][1])
+    inputs = []          # (base, view, which) per distinct input
+    for flat in case['inputs']:
+        idx = np.array(flat, dtype=np.int64).reshape(shape)
+        inputs.append(_build_array(np, pool, li, idx))
+    snap = [b.copy(order='K') for b, _, _ in inputs]
+    held = []            # (step, a, b, input number, result)
+    funcs = []
+    desc = _layouts()[li][0]
+    for n, st in enumerate(case['seq']):
+        a, b = by[st['from']], by[st['to']]
+        base, view, which = inputs[st['input']]
+        with np.errstate(all='ignore'):
+            if st.get('inplace'):
+                # an in-place conversion of a private copy of the input, interleaved: must not disturb anything held
+                tmp = np.array(view, copy=True)
+                r = osdd_call(U, U.convert_array_inplace, tmp, a.unit, b.unit)
+                if r[0] != 'ok':
+                    return f'step {n}: convert_array_inplace raised {r[1]}', []
+                continue
+            r = osdd_call(U, U.convert_array, view, a.unit, b.unit)
+        if r[0] != 'ok':
+            return f'step {n}: convert_array on {desc} raised {r[1]}', []
+        if not isinstance(r[1], np.ndarray) and not isinstance(r[1], np.floating):
+            return f'step {n}: convert_array returned {type(r[1]).__name__}', []
+        held.append((n, a, b, st['input'], r[1]))
+        f = osdd_call(U, U.convert_function, a.unit, b.unit)
+        if f[0] != 'ok':
+            return f'step {n}: convert_function raised {f[1]}', []
+        funcs.append((n, a, b, f[1]))
+    out = []
+
+    def verify(when, skip=()):
+        for k, (n, a, b, inp, res) in enumerate(held):
+            if k in skip: continue
+            base, view, which = inputs[inp]
+            if tuple(np.shape(res)) != tuple(view.shape) or getattr(res, 'dtype', None) != np.float64:
+                return f'{when}: result of step {n} has shape {np.shape(res)} dtype {getattr(res, "dtype", None)}'
+            for pos, (w, gb) in enumerate(zip(which, _bits_of(np, np.asarray(res)))):
+                t = check_scalar(('ok', bits_f(int(gb))), osdd_exact(Fraction(pool[int(w)]), a, b),
+                                 f'{when}: held result of step {n} (convert_array {a.key!r}->{b.key!r} on {desc}), element {pos} (v={pool[int(w)]!r})')
+                if t:
+                    return t + ' - a held result no longer equals the conversion of its own input'
+        for m, (base, view, which) in enumerate(inputs):
+            if not _same_bits(np, base, snap[m]):
+                return f'{when}: input array {m} was modified'
+        return None
+
+    bad = verify('after all calls')
+    if bad: return bad, out
+    for k, (n, a, b, inp, res) in enumerate(held):
+        if isinstance(res, np.ndarray):
+            flat = _bits_of(np, res)
+            out.append((f'oarr {a.idx} {b.idx} ' + (','.join(str(int(x)) for x in _bits_of(np, np.array(inputs[inp][1], copy=True))) or '-'),
+                        'ok ' + (','.join(str(int(x)) for x in flat) or '-')))
+    for i in range(len(held)):
+        for j in range(i + 1, len(held)):
+            ri, rj = held[i][4], held[j][4]
+            if ri is rj:
+                return f'steps {held[i][0]} and {held[j][0]}: convert_array returned the same array object twice', out
+            if isinstance(ri, np.ndarray) and isinstance(rj, np.ndarray) and ri.size and np.shares_memory(ri, rj):
+                return f'steps {held[i][0]} and {held[j][0]}: the two results share memory', out
+        for m, (base, view, which) in enumerate(inputs):
+            ri = held[i][4]
+            if isinstance(ri, np.ndarray) and (ri is view or ri is base or (ri.size and np.shares_memory(ri, base))):
+                return f'step {held[i][0]}: the result shares memory with input array {m}', out
+    # the caller owns each result: writing into one must change nothing else
+    written = set()
+    for k, (n, a, b, inp, res) in enumerate(held):
+        if isinstance(res, np.ndarray) and res.size and res.flags.writeable:
+            res[...] = 12345.678
+            written.add(k)
+            bad = verify(f'after writing into the result of step {n}', skip=written)
+            if bad: return bad, out
+    # the functions made along the way still convert with their own units
+    v = pool[0]
+    for n, a, b, f in funcs:
+        r = osdd_call(U, f, v)
+        t = check_scalar(r, osdd_exact(Fraction(v), a, b), f'held convert_function of step {n} ({a.key!r}->{b.key!r}) applied after the others were made')
+        if t: return t, out
+    return None, out
+
+
+def run_hold_arrays(ctx, U, np, ous, dims, lean, boost=False):
+    rng = ctx.rng
+    L = _layouts()
+    usable = [i for i, l in enumerate(L)]
+    multi = [m for m in dims.values() if len(m) >= 2]
+    with_off = [m for m in dims.values() if any(o.has_off for o in m)]
+    by = {o.key: o for o in ous}
+    lines, meta = [], []
+    for n in range(ctx.n(1200, 12000) * (2 if boost else 1)):
+        li = rng.choice(usable)
+        size = 1
+        for d in L[li][1]: size *= d
+        pool = gen_values(rng, 6) + [rng.choice(SPECIALS), rng.choice(SPECIALS)]
+        ninp = rng.choice([1, 2, 3])
+        inputs = [[rng.randrange(len(pool)) for _ in range(size)] for _ in range(ninp)]
+        seq = []
+        for _ in range(rng.choice([2, 3, 4, 6])):
+            members = rng.choice(with_off) if rng.random() < 0.2 else rng.choice(multi)
+            a, b = rng.choice(members), rng.choice(members)
+            st = {'from': a.key, 'to': b.key, 'input': rng.randrange(ninp)}
+            if rng.random() < 0.15: st['inplace'] = True
+            seq.append(st)
+        case = {'op': 'osdd_hold', 'layout': li, 'what': L[li][0], 'pool': [v.hex() for v in pool], 'inputs': inputs, 'seq': seq}
+        ctx.count('oracle_cases')
+        bad, out = play_hold_arrays(U, np, by, case)
+        if bad:
+            ctx.fail(case, bad)
+        else:
+            ctx.nontriv(('hold', n, li, len(seq)))
+        for req, impl in out:
+            lines.append(req); meta.append((case, impl, bad))
+    for (case, impl, bad), m in zip(meta, lean(lines)):
+        corr_num(ctx, 'osdd_hold_copy', case, impl, m, (lambda bad=bad: bad))
+
+
+def gen_hold_engval(rng, lus):
+    cats = {}
+    for l in lus: cats.setdefault(l.cat, []).append(l)
+    big = [m for m in cats.values() if len(m) >= 3]
+    members = rng.choice(big)
+    hx = lambda x: x.hex()
+    near = lambda: rng.choice(members).name if rng.random() < 0.9 else rng.choice(lus).name
+    start = {'u': hx(rng.choice(members).name), 'v': gen_values(rng, 1)[0].hex()}
+    ops = []
+    for _ in range(rng.choice([3, 5, 8])):
+        r = rng.random()
+        if r < 0.3: ops.append(['new', hx(near())])
+        elif r < 0.4: ops.append(['new', start['u']])
+        elif r < 0.7: ops.append(['bin', rng.choice(['+', '-']), hx(near()), gen_values(rng, 1)[0].hex()])
+        elif r < 0.85: ops.append(['bin', rng.choice(['*r', '/r', 'r*', 'r-', 'r+']), '', rng.uniform(0.5, 3.0).hex()])
+        elif r < 0.93: ops.append(['bin', '*d', hx(DIMLESS), rng.uniform(0.5, 3.0).hex()])
+        else: ops.append(['mut', rng.uniform(0.5, 2.0).hex()])          # the source object changes in between
+    return start, ops
+
+
+def play_hold_engval(L, EV, ref: LisRef, start, ops):
+    """EngVal-returning operations (newEngValInUnits, + - * /, reflected forms) made in sequence on one source object, every
+    result kept. Afterwards each result still has the value/units it was made with (Fraction reference from the source state at
+    that moment), results are distinct objects (also from the source and the operands), and mutating one result, or the source,
+    changes no other result."""
+    import operator
+    fx, unb = float.fromhex, bytes.fromhex
+    e = EV.EngVal(fx(start['v']), unb(start['u']))
+    held = []           # (step, result, value bits at creation, uom, reference ('ok',E,B)|('ident',v))
+    operands = []
+    for i, op in enumerate(ops):
+        v, u = e.value, e.uom
+        what = f'step {i} {op} on EngVal({v!r},{u!r})'
+        if op[0] == 'mut':
+            e *= fx(op[1]); continue
+        if op[0] == 'new':
+            t = unb(op[1])
+            rr = ref.get(v, u, t)
+            res = osdd_call(L, e.newEngValInUnits, t)
+            exp_u = t
+        else:
+            name, w = op[1], fx(op[3])
+            exp_u = u
+            if name in ('+', '-'):
+                o = EV.EngVal(w, unb(op[2])); operands.append(o)
+                res = osdd_call(L, operator.add if name == '+' else operator.sub, e, o)
+                c = ref.get(w, unb(op[2]), u)
+                if c[0] == 'units': rr = c
+                else:
+                    Ec, Bc = (Fraction(c[1]), 0) if c[0] == 'ident' else (c[1], c[2])
+                    Er = Fraction(v) + Ec if name == '+' else Fraction(v) - Ec
+                    rr = ('ok', Er, Bc * (1 + U53) + U53 * abs(Er) + 4 * ETA)
+            elif name == '*d':
+                o = EV.EngVal(w, DIMLESS); operands.append(o)
+                res = osdd_call(L, operator.mul, e, o)
+                Er = Fraction(v) * Fraction(w); rr = ('ok', Er, U53 * abs(Er) + 4 * ETA)
+            else:
+                fn = {'*r': lambda: e * w, '/r': lambda: e / w, 'r*': lambda: w * e, 'r-': lambda: w - e, 'r+': lambda: w + e}[name]
+                res = osdd_call(L, fn)
+                Er = {'*r': Fraction(v) * Fraction(w), '/r': Fraction(v) / Fraction(w), 'r*': Fraction(v) * Fraction(w),
+                      'r-': Fraction(w) - Fraction(v), 'r+': Fraction(v) + Fraction(w)}[name]
+                rr = ('ok', Er, 2 * U53 * abs(Er) + 4 * ETA)          # r- is (e - w) * -1: two roundings at most
+        if rr[0] == 'units':
+            if res[0] != 'units':
+                return f'{what}: {res[0]} {res[1]!r}; expected a units error'
+            continue
+        if res[0] != 'ok' or not isinstance(res[1], EV.EngVal):
+            return f'{what}: {res[0]} {res[1]!r}; expected an EngVal'
+        r = res[1]
+        if rr[0] == 'ident':
+            if not (isinstance(r.value, float) and fbits(r.value) == fbits(rr[1])):
+                return f'{what}: value {r.value!r}, expected {rr[1]!r} untouched'
+        elif not _within(r.value, rr[1], rr[2]):
+            return f'{what}: value {r.value!r}, exact {float(rr[1])!r} (bound {float(rr[2]):.2e})'
+        if r.uom != exp_u:
+            return f'{what}: units {r.uom!r}, expected {exp_u!r}'
+        held.append((i, r, fbits(r.value), r.uom))
+
+    def verify(when, skip=()):
+        for k, (i, r, vb, uu) in enumerate(held):
+            if k in skip: continue
+            if not (isinstance(r.value, float) and fbits(r.value) == vb and r.uom == uu):
+                return f'{when}: the result of step {i} {ops[i]} changed from ({bits_f(vb)!r},{uu!r}) to ({r.value!r},{r.uom!r})'
+        return None
+
+    bad = verify('after all operations')
+    if bad: return bad
+    objs = [('the source object', e)] + [(f'an operand', o) for o in operands]
+    for k, (i, r, _, _) in enumerate(held):
+        for name, o in objs:
+            if r is o:
+                return f'step {i} {ops[i]} returned {name} instead of a new EngVal'
+        for k2 in range(k + 1, len(held)):
+            if r is held[k2][1]:
+                return f'steps {i} and {held[k2][0]} returned the same EngVal object'
+    src = (fbits(e.value), e.uom)
+    done = set()
+    for k, (i, r, _, _) in enumerate(held):
+        r *= 3.0
+        r.value = r.value + 1.0
+        done.add(k)
+        bad = verify(f'after mutating the result of step {i}', skip=done)
+        if bad: return bad
+        if (fbits(e.value), e.uom) != src:
+            return f'mutating the result of step {i} {ops[i]} changed the source object to ({e.value!r},{e.uom!r})'
+    return None
+
+
+def run_hold_engval(ctx, L, EV, lus, boost=False):
+    rng = ctx.rng
+    ref = LisRef(lus)
+    for n in range(ctx.n(1500, 15000) * (2 if boost else 1)):
+        start, ops = gen_hold_engval(rng, lus)
+        ctx.count('oracle_cases')
+        bad = play_hold_engval(L, EV, ref, start, ops)
+        if bad:
+            ctx.fail({'op': 'engval_hold', 'start': start, 'ops': ops}, bad)
+        else:
+            ctx.nontriv(('engval_hold', n, start['u'], len(ops)))
